@@ -1,18 +1,351 @@
-"""C07: the result does not depend on how the input is delivered (reader clauses)."""
+"""C07: the result does not depend on how the input is delivered (reader clauses).
+
+The rules here (and in rules_marks, which shares the helpers of the first section) find the variables they talk about by
+their *role* - "the local assigned from self.stream.read(...)", "the second result of the decoder call", "the argument
+that ReaderError stores as .position" - through reaching definitions on the CFG, never by their names, and compare
+conditions / index arithmetic as evaluated conditions / linear forms, never as text.
+"""
 import ast
+import copy
 
 from . import astutil as A
 from . import charworld as CW
-from .cfg import CFG, own_exprs
-from .srcmodel import AnalysisError, FuncInfo, norm, walk_function
+from . import match as M
+from .cfg import CFG, own_exprs, reaching_defs, defs_of
+from .srcmodel import AnalysisError, ClassInfo, FuncInfo, norm, walk_function
 
 
-def linear_form(e, atoms=None):
-    """{atom text: coefficient, '': constant} of an expression built from + - and atoms; None if not linear."""
-    if isinstance(e, ast.Constant) and isinstance(e.value, int):
+# ======================================================================================================================
+# shared helpers: roles by data flow
+# ======================================================================================================================
+
+def self_name(f):
+    return f.params[0] if f.params else 'self'
+
+
+def is_self_attr(e, f, attr=None):
+    """e is `self.<attr>` (self = the first parameter of f)."""
+    return A.is_attr(e, self_name(f), attr)
+
+
+def is_self_call(c, f, attr=None):
+    return isinstance(c, ast.Call) and is_self_attr(c.func, f, attr)
+
+
+def pat(src):
+    return M.compile_pattern(src)[1]
+
+
+def matches(src, node, env=None):
+    e = dict(env or {})
+    return e if M.match(pat(src), node, e) else None
+
+
+def name_env(**kw):
+    """{'_N_x': Name} environment for sa.match from local names."""
+    return {'_N_' + k: ast.Name(id=v, ctx=ast.Load()) for k, v in kw.items()}
+
+
+_BASELINE = []
+
+
+def baseline_functions():
+    if not _BASELINE:
+        from . import expand
+        b = expand.load_baseline()
+        _BASELINE.append(set(b['functions']) if b else None)
+    return _BASELINE[0]
+
+
+def is_new_helper(f):
+    """f does not exist in the reference inventory: a helper introduced by a refactoring."""
+    b = baseline_functions()
+    return b is not None and f.qualname not in b
+
+
+def dead_helpers(repo):
+    """qualnames of the helpers sa.expand has inlined at *every* use: their statements are already seen at the call
+    sites, so a rule that ranges over all methods of a class must not see them a second time."""
+    d = getattr(repo, '_dead_helpers', None)
+    if d is not None:
+        return d
+    exp = repo.expansion if isinstance(repo.expansion, dict) else {}
+    inl = set(exp.get('inlined_helpers', []) or [])
+    d = set()
+    if inl:
+        names = {q.rsplit('.', 1)[1] for q in inl}
+        used = set()
+        for f in repo.all_functions():
+            for n in walk_function(f.node):
+                nm = n.attr if isinstance(n, ast.Attribute) else n.id if isinstance(n, ast.Name) else None
+                if nm in names and nm != f.name:
+                    used.add(nm)
+        d = {q for q in inl if q.rsplit('.', 1)[1] not in used}
+    repo._dead_helpers = d
+    return d
+
+
+def live_methods(repo, cls):
+    dead = dead_helpers(repo)
+    return [f for f in cls.methods.values() if f.qualname not in dead]
+
+
+def helper_group(repo, cls, f):
+    """f together with the same-class helpers (methods outside the reference inventory) it still calls, transitively:
+    the unit a rule about "what f does" has to look at when a part of f has been moved into a helper."""
+    out, work = [f], [f]
+    while work:
+        g = work.pop()
+        for c in A.func_calls(g.node):
+            if is_self_call(c, g):
+                h = cls.methods.get(c.func.attr)
+                if h is not None and h not in out and is_new_helper(h):
+                    out.append(h)
+                    work.append(h)
+    return out
+
+
+class Flow:
+    """CFG + cached reaching definitions of one function."""
+
+    def __init__(self, f):
+        self.f = f
+        self.cfg = CFG(f.node)
+        self._rd = {}
+        self._where = None
+
+    def rd(self, var):
+        r = self._rd.get(var)
+        if r is None:
+            r = self._rd[var] = reaching_defs(self.cfg, var)
+        return r
+
+    def node_of(self, astnode):
+        """the CFG node at which `astnode` (an expression or a simple statement) is evaluated."""
+        if self._where is None:
+            self._where = {}
+            for n in self.cfg.nodes:
+                for sub in own_exprs(n):
+                    self._where.setdefault(id(sub), n)
+        n = self._where.get(id(astnode))
+        if n is None:
+            raise AnalysisError('%s: %s is not on the control-flow graph' % (self.f.qualname, norm(astnode)[:50]))
+        return n
+
+    def def_nodes(self, var):
+        return [n for n in self.cfg.nodes if defs_of(n, var)]
+
+    def entry_reaches(self, var, at):
+        return at in self.cfg.reach([self.cfg.entry], blocked=self.def_nodes(var))
+
+    def between(self, a, b):
+        """nodes that can execute after a and before b."""
+        after = self.cfg.reach([m for (m, lab) in self.cfg.succ[a]])
+        return [n for n in after if n is not b and b in self.cfg.reach([n])]
+
+
+def origins(flow, expr, at, depth=0):
+    """where the value of `expr`, evaluated at CFG node `at`, comes from: a list of (kind, expr, node, index)
+
+        ('param', Name, entry, None)     a parameter that has not been reassigned
+        ('global', Name, at, None)       a name that is never assigned in the function
+        ('expr', e, node, None)          the value of expression e evaluated at node (local aliases are followed)
+        ('elt', e, node, i)              element i of the value of e (tuple unpacking)
+        ('iter'|'aug'|'unknown', ...)    a loop target / augmented assignment / something else
+    """
+    if not isinstance(expr, ast.Name):
+        return [('expr', expr, at, None)]
+    name = expr.id
+    dn = flow.rd(name).get(at, set())
+    out = []
+    if name in flow.f.params and (not dn or flow.entry_reaches(name, at)):
+        out.append(('param', expr, flow.cfg.entry, None))
+    if not dn and not out:
+        return [('global', expr, at, None)]
+    for d in sorted(dn, key=lambda n: n.id):
+        a = d.ast
+        if d.kind == 'for':
+            out.append(('iter', a, d, None))
+        elif isinstance(a, (ast.Assign, ast.AnnAssign)):
+            targets = a.targets if isinstance(a, ast.Assign) else [a.target]
+            done = False
+            for t in targets:
+                if isinstance(t, ast.Name) and t.id == name:
+                    if isinstance(a.value, ast.Name) and depth < 8:
+                        out.extend(origins(flow, a.value, d, depth + 1))
+                    else:
+                        out.append(('expr', a.value, d, None))
+                    done = True
+                elif isinstance(t, (ast.Tuple, ast.List)):
+                    idx = [i for i, x in enumerate(t.elts) if isinstance(x, ast.Name) and x.id == name]
+                    if idx:
+                        if isinstance(a.value, (ast.Tuple, ast.List)) and len(a.value.elts) == len(t.elts):
+                            v = a.value.elts[idx[0]]
+                            if isinstance(v, ast.Name) and depth < 8:
+                                out.extend(origins(flow, v, d, depth + 1))
+                            else:
+                                out.append(('expr', v, d, None))
+                        else:
+                            out.append(('elt', a.value, d, idx[0]))
+                        done = True
+                if done:
+                    break
+            if not done:
+                out.append(('unknown', a, d, None))
+        elif isinstance(a, ast.AugAssign):
+            out.append(('aug', a, d, None))
+        else:
+            out.append(('unknown', a, d, None))
+    return out
+
+
+def alias_of_self_attr(flow, expr, at, attr):
+    """expr, evaluated at `at`, denotes the object self.<attr> holds there: either the attribute itself or a local bound to
+    it with no rebinding of the attribute (assignment, or a call of a method of self) in between."""
+    f = flow.f
+    if is_self_attr(expr, f, attr):
+        return True
+    if not isinstance(expr, ast.Name):
+        return False
+    og = origins(flow, expr, at)
+    if not og:
+        return False
+    for kind, e, node, idx in og:
+        if kind != 'expr' or not is_self_attr(e, f, attr):
+            return False
+        for n in flow.between(node, at):
+            for sub in own_exprs(n):
+                if isinstance(sub, ast.Attribute) and isinstance(sub.ctx, ast.Store) and is_self_attr(sub, f, attr):
+                    return False
+                if is_self_call(sub, f):
+                    return False
+    return True
+
+
+def ctor_arg(repo, cls, call, attr):
+    """the argument of `call` (a construction of class `cls`) that cls.__init__ stores as self.<attr>; None if the call
+    does not pass it; AnalysisError if __init__ does not store a parameter there."""
+    found = repo.lookup(cls, '__init__')
+    if not found or not isinstance(found[1], FuncInfo):
+        raise AnalysisError('%s has no __init__ to bind constructor arguments with' % cls.qualname)
+    init = found[1]
+    param = None
+    for n in walk_function(init.node):
+        if isinstance(n, ast.Assign) and any(is_self_attr(t, init, attr) for t in n.targets) and isinstance(n.value, ast.Name) \
+                and n.value.id in init.params:
+            param = n.value.id
+    if param is None:
+        raise AnalysisError('%s.__init__ does not store a parameter as .%s' % (cls.qualname, attr))
+    i = init.params.index(param) - 1
+    if any(isinstance(a, ast.Starred) for a in call.args) or any(k.arg is None for k in call.keywords):
+        raise AnalysisError('construction of %s with * / ** arguments (line %d)' % (cls.name, call.lineno))
+    if 0 <= i < len(call.args):
+        return call.args[i]
+    for k in call.keywords:
+        if k.arg == param:
+            return k.value
+    return None
+
+
+def callee_classes(repo, cls, flow, call, _depth=0):
+    """the classes a call `X(...)` with a plain-name callee may construct: X a class of the package, a local bound to
+    classes, or a parameter (then: what the same-class callers pass).  [] if X is not (only) classes."""
+    fn = call.func
+    if not isinstance(fn, ast.Name):
+        return []
+    return _classes_of(repo, cls, flow, fn, flow.node_of(call), _depth)
+
+
+def _classes_of(repo, cls, flow, expr, at, depth):
+    f = flow.f
+    if isinstance(expr, ast.IfExp):
+        a = _classes_of(repo, cls, flow, expr.body, at, depth)
+        b = _classes_of(repo, cls, flow, expr.orelse, at, depth)
+        return (a + [x for x in b if x not in a]) if a and b else []
+    if not isinstance(expr, ast.Name):
+        return []
+    out = []
+    for kind, e, node, idx in origins(flow, expr, at):
+        if kind == 'global':
+            r = repo.resolve_name(f.module, e.id)
+            if r is None or r.kind != 'class' or not isinstance(r.obj, ClassInfo):
+                return []
+            got = [r.obj]
+        elif kind == 'param' and depth < 3 and f.cls is not None:
+            i = f.params.index(e.id) - 1
+            got = []
+            for g in live_methods(repo, cls):
+                for c in A.func_calls(g.node):
+                    if is_self_call(c, g, f.name):
+                        arg = c.args[i] if 0 <= i < len(c.args) else next((k.value for k in c.keywords if k.arg == e.id), None)
+                        if arg is None:
+                            d = f.defaults().get(e.id)
+                            sub = _classes_of(repo, cls, flow, d, flow.cfg.entry, depth + 1) if isinstance(d, ast.Name) else []
+                        else:
+                            gf = g._flow = getattr(g, '_flow', None) or Flow(g)
+                            sub = _classes_of(repo, cls, gf, arg, gf.node_of(c), depth + 1)
+                        if not sub:
+                            return []
+                        got.extend(x for x in sub if x not in got)
+            if not got:
+                return []
+        elif kind == 'expr' and isinstance(e, ast.IfExp):
+            got = _classes_of(repo, cls, flow, e, node, depth)
+            if not got:
+                return []
+        else:
+            return []
+        out.extend(x for x in got if x not in out)
+    return out
+
+
+def reach_under(cfg, atom, starts=None, blocked=()):
+    """nodes reachable when every test is evaluated with the three-valued `atom`: a decided test follows one edge only."""
+    blocked = set(blocked)
+    seen = set()
+    stack = [s for s in (starts or [cfg.entry]) if s not in blocked]
+    memo = {}
+    while stack:
+        n = stack.pop()
+        if n in seen:
+            continue
+        seen.add(n)
+        v = None
+        if n.kind == 'test' and n.ast is not None:
+            if n not in memo:
+                memo[n] = A.eval3(n.ast, atom)
+            v = memo[n]
+        for (m, lab) in cfg.succ[n]:
+            if v is not None and lab in (True, False) and lab != v:
+                continue
+            if m not in blocked:
+                stack.append(m)
+    return seen
+
+
+def subst_attrs(expr, subs):
+    """copy of expr with every expression whose normal form is a key of subs replaced by the constant value."""
+    class T(ast.NodeTransformer):
+        def visit(self, node):
+            if isinstance(node, ast.expr):
+                k = norm(node)
+                if k in subs:
+                    return ast.copy_location(ast.Constant(subs[k]), node)
+            return self.generic_visit(node)
+    return ast.fix_missing_locations(T().visit(copy.deepcopy(expr)))
+
+
+# ======================================================================================================================
+# linear forms
+# ======================================================================================================================
+
+def linear_form(e, atom_name=None):
+    """{atom text: coefficient, '': constant} of an expression built from + - and atoms; None if not linear.
+    atom_name(expr) may give an atom a canonical (role) name instead of its source text."""
+    if isinstance(e, ast.Constant) and isinstance(e.value, int) and not isinstance(e.value, bool):
         return {'': e.value}
     if isinstance(e, ast.BinOp) and isinstance(e.op, (ast.Add, ast.Sub)):
-        l, r = linear_form(e.left), linear_form(e.right)
+        l, r = linear_form(e.left, atom_name), linear_form(e.right, atom_name)
         if l is None or r is None:
             return None
         out = dict(l)
@@ -21,27 +354,93 @@ def linear_form(e, atoms=None):
             out[k] = out.get(k, 0) + sign * v
         return {k: v for k, v in out.items() if v != 0 or k == ''}
     if isinstance(e, ast.UnaryOp) and isinstance(e.op, ast.USub):
-        l = linear_form(e.operand)
+        l = linear_form(e.operand, atom_name)
         return None if l is None else {k: -v for k, v in l.items()}
+    if isinstance(e, ast.UnaryOp) and isinstance(e.op, ast.UAdd):
+        return linear_form(e.operand, atom_name)
     if isinstance(e, ast.BinOp) and isinstance(e.op, ast.Mult):
         for a, b in ((e.left, e.right), (e.right, e.left)):
             if isinstance(a, ast.Constant) and isinstance(a.value, int):
-                l = linear_form(b)
+                l = linear_form(b, atom_name)
                 return None if l is None else {k: v * a.value for k, v in l.items()}
         return None
-    return {norm(e): 1}
+    k = atom_name(e) if atom_name else None
+    return {k or norm(e): 1}
 
 
 def _clean(f):
     return {k: v for k, v in (f or {}).items() if v != 0}
 
 
-def _subst_eval(repo, test, subs, env):
-    src = norm(test)
-    for k, v in subs.items():
-        src = src.replace(k, v)
-    e2 = ast.parse(src, mode='eval').body
-    return CW.eval_cond(repo, e2, env)
+def lf_sub(a, b):
+    out = dict(a)
+    for k, v in b.items():
+        out[k] = out.get(k, 0) - v
+    return out
+
+
+def inequality(test, atom_name=None):
+    """a comparison `l OP r` with OP in < <= > >= over linear forms as (D, strict): it holds iff D > 0 (strict) or
+    D >= 0; None if the test is not such a comparison."""
+    if not (isinstance(test, ast.Compare) and len(test.ops) == 1):
+        return None
+    l, r = linear_form(test.left, atom_name), linear_form(test.comparators[0], atom_name)
+    if l is None or r is None:
+        return None
+    op = test.ops[0]
+    if isinstance(op, ast.GtE):
+        return lf_sub(l, r), False
+    if isinstance(op, ast.Gt):
+        return lf_sub(l, r), True
+    if isinstance(op, ast.LtE):
+        return lf_sub(r, l), False
+    if isinstance(op, ast.Lt):
+        return lf_sub(r, l), True
+    return None
+
+
+def _fmt(lf):
+    if lf is None:
+        return '?'
+    parts = []
+    for k, v in lf.items():
+        if k == '' or v == 0:
+            continue
+        parts.append(('%d*%s' % (v, k)) if v != 1 else k)
+    c = lf.get('', 0)
+    if c:
+        parts.append(str(c))
+    return '+'.join(parts).replace('+-', '-') or '0'
+
+
+# ======================================================================================================================
+# R-INCREMENTAL-DECODE
+# ======================================================================================================================
+
+def _call_arg(call, i, kw):
+    if i < len(call.args) and not any(isinstance(a, ast.Starred) for a in call.args[:i + 1]):
+        return call.args[i]
+    for k in call.keywords:
+        if k.arg == kw:
+            return k.value
+    return None
+
+
+def _stream_reads(f):
+    """(local name, assignment) for every `x = self.stream.read(...)` of f: the chunk just read."""
+    out = []
+    for n in walk_function(f.node):
+        if isinstance(n, ast.Assign) and isinstance(n.value, ast.Call) and isinstance(n.value.func, ast.Attribute) \
+                and n.value.func.attr == 'read' and is_self_attr(n.value.func.value, f, 'stream'):
+            for t in n.targets:
+                if isinstance(t, ast.Name):
+                    out.append((t.id, n))
+    return out
+
+
+def _is_stream_read(f, e):
+    return isinstance(e, ast.Call) and isinstance(e.func, ast.Attribute) and e.func.attr == 'read' \
+        and is_self_attr(e.func.value, f, 'stream')
 
 
 def r_incremental_decode(ctx, repo):
@@ -51,78 +450,169 @@ def r_incremental_decode(ctx, repo):
     upd, raw = R.methods.get('update'), R.methods.get('update_raw')
     if upd is None or raw is None:
         raise AnalysisError('Reader.update/update_raw have vanished')
-    dec = [c for c in A.func_calls(upd.node) if norm(c.func) == 'self.raw_decode']
+    # update together with the helpers a part of it may have been moved into
+    group = helper_group(repo, R, upd)
+    flows = {g: Flow(g) for g in group}
+    dec = [(g, c) for g in group for c in A.func_calls(g.node) if is_self_call(c, g, 'raw_decode')]
     if len(dec) != 1:
         raise AnalysisError('Reader.update: decoder call not found')
-    c = dec[0]
-    args = [norm(a) for a in c.args]
-    if len(args) >= 3 and args[0] == 'self.raw_buffer' and args[2] == 'self.eof':
-        rule.ok(upd.loc(c), 'raw_decode(self.raw_buffer, ..., final=self.eof)')
+    dfun, c = dec[0]
+    # codecs.*_decode(input, errors='strict', final=False)
+    a_in, a_final = _call_arg(c, 0, 'input'), _call_arg(c, 2, 'final')
+    if a_in is not None and a_final is not None and is_self_attr(a_in, dfun, 'raw_buffer') and is_self_attr(a_final, dfun, 'eof'):
+        rule.ok(dfun.loc(c), 'raw_decode(self.raw_buffer, ..., final=self.eof)')
     else:
-        rule.fail('%s|final' % upd.qualname, upd.module.rel, c.lineno, upd.qualname, norm(c),
+        rule.fail('%s|final' % upd.qualname, dfun.module.rel, c.lineno, dfun.qualname, norm(c),
                   'the decoder is not called with final=self.eof on the whole undecoded tail: a multi-byte sequence split across '
                   'two reads is reported as invalid (or silently dropped) depending on where the stream was chunked')
-    st = A.enclosing_stmt(c)
-    conv = None
-    if isinstance(st, ast.Assign) and isinstance(st.targets[0], ast.Tuple) and len(st.targets[0].elts) == 2:
-        conv = norm(st.targets[0].elts[1])
-    keep = [n for n in walk_function(upd.node) if isinstance(n, ast.Assign) and norm(n.targets[0]) == 'self.raw_buffer'
-            and isinstance(n.value, ast.Subscript) and isinstance(n.value.slice, ast.Slice)]
-    if conv and keep and all(norm(k.value.value) == 'self.raw_buffer' and k.value.slice.lower is not None
-                             and norm(k.value.slice.lower) == conv and k.value.slice.upper is None for k in keep):
-        rule.ok(upd.loc(keep[0]), 'undecoded tail kept: raw_buffer = raw_buffer[%s:]' % conv)
+
+    def consumed(g, kind, e, idx, depth=0):
+        """this origin is the decoder's second result (the number of units it consumed), possibly handed back by a helper."""
+        if kind != 'elt':
+            return False
+        if e is c:
+            return idx == 1
+        if is_self_call(e, g) and depth < 4:
+            h = R.methods.get(e.func.attr)
+            if h is None or h not in flows:
+                return False
+            rets = [r for r in walk_function(h.node) if isinstance(r, ast.Return)]
+            hit = False
+            for r in rets:
+                if not (isinstance(r.value, ast.Tuple) and idx < len(r.value.elts)):
+                    return False
+                og = origins(flows[h], r.value.elts[idx], flows[h].node_of(r))
+                if any(consumed(h, k2, e2, i2, depth + 1) for k2, e2, n2, i2 in og):
+                    hit = True
+            return hit
+        return False
+
+    keeps = [(g, n) for g in group for n in walk_function(g.node)
+             if isinstance(n, ast.Assign) and any(is_self_attr(t, g, 'raw_buffer') for t in n.targets)
+             and isinstance(n.value, ast.Subscript) and isinstance(n.value.slice, ast.Slice)]
+    good = bool(keeps)
+    for g, k in keeps:
+        sl = k.value.slice
+        if not (is_self_attr(k.value.value, g, 'raw_buffer') and sl.upper is None and sl.step is None and isinstance(sl.lower, ast.Name)):
+            good = False
+            continue
+        og = origins(flows[g], sl.lower, flows[g].node_of(k))
+        if not any(consumed(g, kind, e, idx) for kind, e, node, idx in og):
+            good = False
+    if good:
+        rule.ok(keeps[0][0].loc(keeps[0][1]), 'undecoded tail kept: raw_buffer = raw_buffer[<units the decoder consumed>:]')
     else:
-        rule.fail('%s|tail' % upd.qualname, upd.module.rel, (keep[0].lineno if keep else upd.node.lineno), upd.qualname,
+        rule.fail('%s|tail' % upd.qualname, upd.module.rel, (keeps[0][1].lineno if keeps else upd.node.lineno), upd.qualname,
                   'self.raw_buffer = self.raw_buffer[converted:]',
                   'the bytes the decoder did not consume are not kept for the next refill')
-    t = norm(raw.node)
-    cfg = CFG(raw.node)
-    app = [n for n in cfg.nodes if n.kind == 'stmt' and isinstance(n.ast, ast.AugAssign) and norm(n.ast.target) == 'self.raw_buffer'
-           and isinstance(n.ast.op, ast.Add)]
+    # update_raw appends what it has read
+    rflow = Flow(raw)
+    cfg = rflow.cfg
+    app = []
+    for n in cfg.nodes:
+        if n.kind != 'stmt':
+            continue
+        if isinstance(n.ast, ast.AugAssign) and is_self_attr(n.ast.target, raw, 'raw_buffer') and isinstance(n.ast.op, ast.Add):
+            app.append((n, n.ast.value))
+        elif isinstance(n.ast, ast.Assign) and any(is_self_attr(t, raw, 'raw_buffer') for t in n.ast.targets) \
+                and isinstance(n.ast.value, ast.BinOp) and isinstance(n.ast.value.op, ast.Add) \
+                and is_self_attr(n.ast.value.left, raw, 'raw_buffer'):
+            app.append((n, n.ast.value.right))
     if app:
-        rule.ok(raw.loc(app[0].ast), 'update_raw appends to the undecoded tail')
+        for n, v in app:
+            og = origins(rflow, v, n)
+            if not og or not all(kind == 'expr' and _is_stream_read(raw, e) for kind, e, node, idx in og):
+                raise AnalysisError('update_raw: what is appended to raw_buffer (%s) is not recognised as the data just read' % norm(v)[:40])
+        rule.ok(raw.loc(app[0][0].ast), 'update_raw appends to the undecoded tail')
     else:
         rule.fail('%s|append' % raw.qualname, raw.module.rel, raw.node.lineno, raw.qualname, 'self.raw_buffer += data',
                   'update_raw no longer appends new data to the undecoded tail')
-    # eof only on an empty read
-    eofs = [n for n in walk_function(raw.node) if isinstance(n, ast.Assign) and norm(n.targets[0]) == 'self.eof'
-            and isinstance(n.value, ast.Constant) and n.value.value is True]
+    # eof only on an empty read: evaluated on the CFG for concrete read results
+    eofs = [n for n in cfg.nodes if n.kind == 'stmt' and isinstance(n.ast, ast.Assign) and any(is_self_attr(t, raw, 'eof') for t in n.ast.targets)
+            and isinstance(n.ast.value, ast.Constant) and n.ast.value.value is True]
     if not eofs:
         raise AnalysisError('update_raw: no `self.eof = True`')
-    from .rules_emit import _path_condition
-    size_param = raw.params[1] if len(raw.params) > 1 else 'size'
-    for e in eofs:
-        conds = _path_condition(e, raw.node)
-        bad = None
-        for probe in ('x', 'abc', b'\xff', 'x' * 10):
-            val = True
-            for tt, pol in conds:
-                r = CW.eval_cond(repo, tt, {'data': probe, size_param: 4096})
-                if r is None:
-                    val = None
-                    break
-                if r != pol:
-                    val = False
-                    break
-            if val is not False:
-                bad = probe
-        empty_ok = True
-        for probe in ('', b''):
-            val = True
-            for tt, pol in conds:
-                r = CW.eval_cond(repo, tt, {'data': probe, size_param: 4096})
-                if r is not pol:
-                    val = False
-            if not val:
-                empty_ok = False
-        if bad is None and empty_ok and conds:
-            rule.ok(raw.loc(e), 'eof is declared exactly when read() returned nothing')
-        else:
-            rule.fail('%s|eof' % raw.qualname, raw.module.rel, e.lineno, raw.qualname, norm(getattr(e, '_parent', e))[:70],
-                      'end of input is declared although read() returned data (e.g. %r): a stream that delivers short reads '
-                      '(pipe, socket) has its document silently cut off' % (bad,) if bad is not None else
-                      'end of input is not declared when read() returns nothing')
+    reads = _stream_reads(raw)
+    if not reads:
+        raise AnalysisError('update_raw: the stream.read() whose result decides end of input was not found')
+    chunk_names = {nm for nm, st in reads}
+    size_param = raw.params[1] if len(raw.params) > 1 else None
+
+    def world(probe):
+        env = {nm: probe for nm in chunk_names}
+        if size_param:
+            env[size_param] = 4096
+        return lambda t: CW.eval_cond(repo, t, env)
+    bad = None
+    for probe in ('x', 'abc', b'\xff', 'x' * 10):
+        r = reach_under(cfg, world(probe))
+        if any(e in r for e in eofs):
+            bad = probe
+    empty_ok = True
+    for probe in ('', b''):
+        r = reach_under(cfg, world(probe), blocked=eofs)
+        if cfg.exit_return in r or cfg.exit_fall in r:
+            empty_ok = False
+    e0 = eofs[0].ast
+    if bad is None and empty_ok:
+        rule.ok(raw.loc(e0), 'eof is declared exactly when read() returned nothing')
+    else:
+        rule.fail('%s|eof' % raw.qualname, raw.module.rel, e0.lineno, raw.qualname, norm(getattr(e0, '_parent', e0))[:70],
+                  'end of input is declared although read() returned data (e.g. %r): a stream that delivers short reads '
+                  '(pipe, socket) has its document silently cut off' % (bad,) if bad is not None else
+                  'end of input is not declared when read() returns nothing')
     return rule
+
+
+# ======================================================================================================================
+# R-LOOKAHEAD-SUFFICIENT
+# ======================================================================================================================
+
+def _refill_guard(f, L, maxoff):
+    """the `if <pointer + a >= len(buffer)>: self.update(u)` of f checked against the largest offset read.
+    -> ('missing', None, None) | ('ok'|'guard'|'amount', guard statement, update call, u)"""
+    guards = [n for n in walk_function(f.node) if isinstance(n, ast.If) and any(is_self_call(c, f, 'update') for c in A.calls_in(n.body))]
+    if len(guards) != 1:
+        return ('missing', None, None, None)
+    g = guards[0]
+    okg = False
+    ineq = inequality(g.test)
+    if ineq is not None:
+        D, strict = ineq
+        # fires iff pointer + a - len(buffer) >= 0
+        if D.get('self.pointer') == 1 and D.get('len(self.buffer)') == -1:
+            a = {k: v for k, v in D.items() if k not in ('self.pointer', 'len(self.buffer)') and (v != 0 or k == '')}
+            a.setdefault('', 0)
+            if strict:
+                a[''] -= 1
+            if set(a) <= {L, ''} and a.get(L, 0) == maxoff.get(L, 0) and a[''] >= maxoff.get('', 0):
+                okg = True
+    upd = [c for c in A.calls_in(g.body) if is_self_call(c, f, 'update')][0]
+    u = linear_form(upd.args[0]) if upd.args else None
+    oku = u is not None and set(_clean(u)) <= {L, ''} and u.get(L, 0) == 1 and u.get('', 0) >= maxoff.get('', 0) + 1
+    return ('ok' if okg and oku else 'guard' if not okg else 'amount', g, upd, u)
+
+
+def _reads_after_increment(f):
+    """does the consuming loop of Reader.forward read buffer[pointer] again after it has advanced the pointer (the
+    one-character look-ahead of the CR LF test)?"""
+    flow = Flow(f)
+    cfg = flow.cfg
+    res = False
+    for loop in walk_function(f.node):
+        if not isinstance(loop, ast.While):
+            continue
+        head = cfg.entry_of(loop)
+        incs = [flow.node_of(s) for s in ast.walk(loop) if isinstance(s, ast.AugAssign) and is_self_attr(s.target, f, 'pointer')
+                and isinstance(s.op, ast.Add)]
+        for inc in incs:
+            later = cfg.reach([m for (m, lab) in cfg.succ[inc]], blocked=[head] if head is not None else [])
+            for n in later:
+                for sub in own_exprs(n):
+                    if isinstance(sub, ast.Subscript) and isinstance(sub.ctx, ast.Load) and is_self_attr(sub.slice, f, 'pointer') \
+                            and alias_of_self_attr(flow, sub.value, n, 'buffer'):
+                        res = True
+    return res
 
 
 def r_lookahead_sufficient(ctx, repo):
@@ -133,89 +623,68 @@ def r_lookahead_sufficient(ctx, repo):
         f = R.methods.get(name)
         if f is None:
             raise AnalysisError('Reader.%s has vanished' % name)
+        if len(f.params) < 2:
+            raise AnalysisError('Reader.%s: expected (self, length)' % name)
         L = f.params[1]
         # largest offset read relative to the entry pointer
-        if name == 'forward':
-            reads_after_inc = False
-            for loop in walk_function(f.node):
-                if isinstance(loop, ast.While):
-                    seen_inc = False
-                    for st in loop.body:
-                        if isinstance(st, ast.AugAssign) and norm(st.target) == 'self.pointer':
-                            seen_inc = True
-                        elif seen_inc and 'self.buffer[self.pointer]' in norm(st):
-                            reads_after_inc = True
-            maxoff = {L: 1, '': 0} if reads_after_inc else {L: 1, '': -1}
+        if name == 'forward' and _reads_after_increment(f):
+            maxoff = {L: 1, '': 0}
         else:
             maxoff = {L: 1, '': -1}
-        guards = [n for n in walk_function(f.node) if isinstance(n, ast.If) and any(
-            norm(c.func) == 'self.update' for c in A.calls_in(n.body))]
-        if len(guards) != 1:
+        st, g, upd, u = _refill_guard(f, L, maxoff)
+        if st == 'missing':
             rule.fail('%s|refill' % f.qualname, f.module.rel, f.node.lineno, f.qualname, 'if ...: self.update(...)',
                       'Reader.%s has no (single) guarded refill before it reads the buffer' % name)
-            continue
-        g = guards[0]
-        t = g.test
-        okg = False
-        a = None
-        if isinstance(t, ast.Compare) and len(t.ops) == 1 and norm(t.comparators[0]) == 'len(self.buffer)':
-            lf = linear_form(t.left)
-            if lf is not None and lf.get('self.pointer') == 1:
-                a = {k: v for k, v in lf.items() if k != 'self.pointer'}
-                a.setdefault('', 0)
-                # guard fires iff len <= p + a (>=) or len < p + a (>)
-                if isinstance(t.ops[0], ast.GtE):
-                    need = dict(maxoff)
-                elif isinstance(t.ops[0], ast.Gt):
-                    need = {L: maxoff.get(L, 0), '': maxoff.get('', 0) + 1}
-                else:
-                    need = None
-                if need is not None and a.get(L, 0) == need.get(L, 0) and a.get('', 0) >= need.get('', 0):
-                    okg = True
-        upd = [c for c in A.calls_in(g.body) if norm(c.func) == 'self.update'][0]
-        u = linear_form(upd.args[0]) if upd.args else None
-        oku = u is not None and u.get(L, 0) == 1 and u.get('', 0) >= maxoff.get('', 0) + 1
-        if okg and oku:
+        elif st == 'ok':
             rule.ok(f.loc(g), 'Reader.%s: refill guard and amount cover offset %s' % (name, _fmt(maxoff)))
         else:
             rule.fail('%s|lookahead' % f.qualname, f.module.rel, g.lineno, f.qualname, norm(g.test) + ': ' + norm(upd),
                       'Reader.%s reads up to offset pointer+%s but %s: with input delivered in small pieces the read runs past the '
                       'buffer (IndexError) or a CR LF pair split across two refills is counted as two line breaks'
-                      % (name, _fmt(maxoff), 'the refill guard does not fire early enough' if not okg
+                      % (name, _fmt(maxoff), 'the refill guard does not fire early enough' if st == 'guard'
                          else 'the refill only asks for %s characters' % _fmt(u)))
     f = R.methods.get('peek')
     if f is None:
         raise AnalysisError('Reader.peek has vanished')
+    if len(f.params) < 2:
+        raise AnalysisError('Reader.peek: expected (self, index)')
     idx = f.params[1]
     tries = [n for n in walk_function(f.node) if isinstance(n, ast.Try)]
     ok = False
-    if len(tries) == 1 and tries[0].handlers and norm(tries[0].handlers[0].type) == 'IndexError':
-        h = tries[0].handlers[0]
-        ups = [c for c in A.calls_in(h.body) if norm(c.func) == 'self.update']
-        if ups and ups[0].args:
-            u = linear_form(ups[0].args[0])
-            if u is not None and u.get(idx, 0) == 1 and u.get('', 0) >= 1:
-                ok = True
+    if len(tries) == 1:
+        for h in tries[0].handlers:
+            types = h.type.elts if isinstance(h.type, ast.Tuple) else [h.type] if h.type is not None else []
+            if not any(isinstance(t, ast.Name) and t.id in ('IndexError', 'LookupError', 'Exception') for t in types):
+                continue
+            ups = [c for c in A.calls_in(h.body) if is_self_call(c, f, 'update')]
+            if ups and ups[0].args:
+                u = linear_form(ups[0].args[0])
+                if u is not None and set(_clean(u)) <= {idx, ''} and u.get(idx, 0) == 1 and u.get('', 0) >= 1:
+                    ok = True
+            break
+    elif not tries:
+        # the same contract written as a guarded refill: offset `index` is read
+        ok = _refill_guard(f, idx, {idx: 1, '': 0})[0] == 'ok'
     if ok:
-        rule.ok(f.loc(), 'Reader.peek refills index+1 characters on IndexError')
+        rule.ok(f.loc(), 'Reader.peek refills index+1 characters when the buffer is too short')
     else:
         rule.fail('%s|lookahead' % f.qualname, f.module.rel, f.node.lineno, f.qualname, 'self.update(index + 1)',
                   'Reader.peek does not refill far enough to read offset `index`')
     return rule
 
 
-def _fmt(lf):
-    if lf is None:
-        return '?'
-    parts = []
-    for k, v in lf.items():
-        if k == '':
-            continue
-        parts.append(('%d*%s' % (v, k)) if v != 1 else k)
-    c = lf.get('', 0)
-    if c:
-        parts.append(str(c))
-    return '+'.join(parts).replace('+-', '-') or '0'
+# ======================================================================================================================
+# R-BOM-NEEDS-TWO
+# ======================================================================================================================
+
+def _subst_eval(repo, test, subs, env):
+    return CW.eval_cond(repo, subst_attrs(test, subs), env)
+
+
+def _is_bom_test(f, e):
+    """self.raw_buffer.startswith(codecs.BOM_...)"""
+    return isinstance(e, ast.Call) and isinstance(e.func, ast.Attribute) and e.func.attr == 'startswith' and e.args \
+        and any(isinstance(x, ast.Attribute) and x.attr.startswith('BOM') for x in ast.walk(e.args[0]))
 
 
 def r_bom_needs_two(ctx, repo):
@@ -226,21 +695,23 @@ def r_bom_needs_two(ctx, repo):
     if f is None:
         raise AnalysisError('Reader.determine_encoding has vanished')
     loops = [n for n in walk_function(f.node) if isinstance(n, ast.While) and any(
-        norm(c.func) == 'self.update_raw' for c in A.calls_in(n.body))]
+        is_self_call(c, f, 'update_raw') for c in A.calls_in(n.body))]
     if len(loops) != 1:
         rule.fail('%s|loop' % f.qualname, f.module.rel, f.node.lineno, f.qualname, 'while ...: self.update_raw()',
                   'determine_encoding has no read loop before the BOM test')
         return rule
     loop = loops[0]
+    s = self_name(f)
+    kb, ke = '%s.raw_buffer' % s, '%s.eof' % s
     bad = []
-    for probe in ('None', "b''", "b'\\xff'", "b'a'"):
-        r = _subst_eval(repo, loop.test, {'self.raw_buffer': probe, 'self.eof': 'False'}, {})
+    for probe in (None, b'', b'\xff', b'a'):
+        r = _subst_eval(repo, loop.test, {kb: probe, ke: False}, {})
         if r is not True:
-            bad.append(probe)
-    stop_ok = _subst_eval(repo, loop.test, {'self.raw_buffer': "b'\\xff\\xfe'", 'self.eof': 'False'}, {}) is False and \
-        _subst_eval(repo, loop.test, {'self.raw_buffer': "b'a'", 'self.eof': 'True'}, {}) is False
+            bad.append(repr(probe))
+    stop_ok = _subst_eval(repo, loop.test, {kb: b'\xff\xfe', ke: False}, {}) is False and \
+        _subst_eval(repo, loop.test, {kb: b'a', ke: True}, {}) is False
     cfg = CFG(f.node)
-    tests = [n for n in cfg.nodes if n.kind == 'test' and 'startswith(codecs.BOM' in norm(n.ast)]
+    tests = [n for n in cfg.nodes if n.kind == 'test' and any(_is_bom_test(f, x) for x in ast.walk(n.ast))]
     head = cfg.entry_of(loop)
     dominated = bool(tests) and head is not None and all(cfg.dominates(head, t) for t in tests)
     if not bad and stop_ok and dominated:
@@ -254,6 +725,49 @@ def r_bom_needs_two(ctx, repo):
     return rule
 
 
+# ======================================================================================================================
+# R-POSITION-ARITHMETIC
+# ======================================================================================================================
+
+def _reader_error_positions(repo, f, flow):
+    """for every `ReaderError(...)` constructed in f: (call, handler-name-or-None, [(value expr, node) that can be its
+    .position])"""
+    RE = repo.cls('reader.ReaderError')
+    out = []
+    for c in A.func_calls(f.node):
+        if not (isinstance(c.func, ast.Name) and RE in callee_classes(repo, f.cls, flow, c)):
+            continue
+        arg = ctor_arg(repo, RE, c, 'position')
+        if arg is None:
+            raise AnalysisError('%s: ReaderError constructed without a position' % f.qualname)
+        hname = None
+        p = c
+        while p is not None and p is not f.node:
+            if isinstance(p, ast.ExceptHandler) and p.name:
+                hname = p.name
+                break
+            p = getattr(p, '_parent', None)
+        vals = []
+        for kind, e, node, idx in origins(flow, arg, flow.node_of(c)):
+            if kind != 'expr':
+                raise AnalysisError('%s: the position passed to ReaderError (%s) is not a plain computed value' % (f.qualname, norm(arg)))
+            vals.append((e, node))
+        out.append((c, hname, vals))
+    return out
+
+
+def _once_per_iteration(cfg, head, a, b):
+    """within one iteration of the loop at `head`, a executes iff b executes."""
+    for x, y in ((a, b), (b, a)):
+        # an iteration that executes x but not y: head -> x avoiding y, and x -> head/exit avoiding y
+        to_x = cfg.reach([m for (m, lab) in cfg.succ[head]], blocked=[y, head])
+        if x in to_x:
+            frm = cfg.reach([m for (m, lab) in cfg.succ[x]], blocked=[y])
+            if head in frm or cfg.exit_return in frm or cfg.exit_fall in frm:
+                return False
+    return True
+
+
 def r_positions(ctx, repo):
     rule = ctx.rule('R-POSITION-ARITHMETIC', 'reader error positions are the affine expressions implied by the reader\'s own invariants: '
                                              'buffer[pointer] has absolute index self.index; raw_buffer is the tail of what was read')
@@ -261,40 +775,89 @@ def r_positions(ctx, repo):
     f = R.methods.get('check_printable')
     if f is None:
         raise AnalysisError('Reader.check_printable has vanished')
-    pos = [n for n in walk_function(f.node) if isinstance(n, ast.Assign) and norm(n.targets[0]) == 'position']
-    want = {'self.index': 1, 'len(self.buffer)': 1, 'self.pointer': -1, 'match.start()': 1}
-    if len(pos) == 1 and _clean(linear_form(pos[0].value)) == want:
-        rule.ok(f.loc(pos[0]), 'position = index + (len(buffer) - pointer) + match.start()')
+    if len(f.params) < 2:
+        raise AnalysisError('Reader.check_printable: expected (self, data)')
+    flow = Flow(f)
+    sites = _reader_error_positions(repo, f, flow)
+    if not sites:
+        raise AnalysisError('Reader.check_printable: no ReaderError is raised')
+
+    def match_start(node):
+        """<m>.start() with m the result of <regex>.search(<the chunk parameter>) -> the offset of the offending character"""
+        def name(e):
+            if isinstance(e, ast.Call) and not e.args and isinstance(e.func, ast.Attribute) and e.func.attr == 'start':
+                og = origins(flow, e.func.value, node)
+                if og and all(k == 'expr' and isinstance(x, ast.Call) and isinstance(x.func, ast.Attribute) and x.func.attr == 'search'
+                              and len(x.args) == 1 and isinstance(x.args[0], ast.Name) and x.args[0].id == f.params[1]
+                              for k, x, n, i in og):
+                    return '<match>.start()'
+            return None
+        return name
+    want = {'self.index': 1, 'len(self.buffer)': 1, 'self.pointer': -1, '<match>.start()': 1}
+    forms = [(_clean(linear_form(e, match_start(node))), e) for c, h, vals in sites for e, node in vals]
+    c0 = sites[0][0]
+    if forms and all(fm == want for fm, e in forms):
+        rule.ok(f.loc(c0), 'position = index + (len(buffer) - pointer) + match.start()')
     else:
-        got = _clean(linear_form(pos[0].value)) if pos else None
-        rule.fail('%s|position' % f.qualname, f.module.rel, (pos[0].lineno if pos else f.node.lineno), f.qualname,
-                  norm(pos[0]) if pos else 'position = ...',
+        got = [fm for fm, e in forms if fm != want]
+        rule.fail('%s|position' % f.qualname, f.module.rel, c0.lineno, f.qualname,
+                  norm(forms[0][1]) if forms else 'position = ...',
                   'the position of a non-printable character is computed as %s; the chunk being checked will be appended at '
                   'len(buffer) while buffer[pointer] has absolute index self.index, so it must be index + len(buffer) - pointer + '
-                  'match.start(): positions differ between str input and streamed input' % got)
+                  'match.start(): positions differ between str input and streamed input' % (got[0] if got else None))
     g = R.methods.get('update')
-    pos = [n for n in walk_function(g.node) if isinstance(n, ast.Assign) and norm(n.targets[0]) == 'position']
-    forms = [_clean(linear_form(p.value)) for p in pos]
-    w1 = {'self.stream_pointer': 1, 'len(self.raw_buffer)': -1, 'exc.start': 1}
-    w2 = {'exc.start': 1}
-    if len(forms) == 2 and w1 in forms and w2 in forms:
-        rule.ok(g.loc(pos[0]), 'decode error position = stream_pointer - len(raw_buffer) + exc.start (stream) / exc.start (bytes)')
+    if g is None:
+        raise AnalysisError('Reader.update has vanished')
+    forms = []
+    first = None
+    for h in helper_group(repo, R, g):
+        hflow = Flow(h)
+        for c, hname, vals in _reader_error_positions(repo, h, hflow):
+            if hname is None:
+                continue
+            first = first or (h, c)
+
+            def exc_start(e, hname=hname):
+                return '<exc>.start' if isinstance(e, ast.Attribute) and e.attr == 'start' and isinstance(e.value, ast.Name) \
+                    and e.value.id == hname else None
+            for e, node in vals:
+                forms.append((_clean(linear_form(e, exc_start)), e))
+    w1 = {'self.stream_pointer': 1, 'len(self.raw_buffer)': -1, '<exc>.start': 1}
+    w2 = {'<exc>.start': 1}
+    fl = [fm for fm, e in forms]
+    if len(fl) == 2 and w1 in fl and w2 in fl:
+        rule.ok(first[0].loc(first[1]), 'decode error position = stream_pointer - len(raw_buffer) + exc.start (stream) / exc.start (bytes)')
     else:
-        rule.fail('%s|position' % g.qualname, g.module.rel, (pos[0].lineno if pos else g.node.lineno), g.qualname,
-                  '; '.join(norm(p) for p in pos)[:90],
+        rule.fail('%s|position' % g.qualname, g.module.rel, (first[1].lineno if first else g.node.lineno), g.qualname,
+                  '; '.join(norm(e) for fm, e in forms)[:90],
                   'the position of an undecodable byte is not stream_pointer - len(raw_buffer) + exc.start for streams and '
-                  'exc.start for byte strings: got %s' % forms)
+                  'exc.start for byte strings: got %s' % fl)
     # index / pointer advance together in forward; update re-bases buffer and pointer together
     fw = R.methods.get('forward')
-    t = norm(fw.node)
+    if fw is None:
+        raise AnalysisError('Reader.forward has vanished')
+    fcfg = CFG(fw.node)
     body_ok = False
     for loop in walk_function(fw.node):
         if isinstance(loop, ast.While):
-            incs = [norm(s) for s in loop.body if isinstance(s, ast.AugAssign)]
-            if 'self.pointer += 1' in incs and 'self.index += 1' in incs:
-                body_ok = True
-    up = norm(g.node)
-    rebase = 'self.buffer = self.buffer[self.pointer:]' in up and 'self.pointer = 0' in up
+            head = fcfg.entry_of(loop)
+            pi = [s for s, e in M.find(loop.body, 'self.pointer += 1')]
+            ii = [s for s, e in M.find(loop.body, 'self.index += 1')]
+            if head is not None and len(pi) == 1 and len(ii) == 1:
+                a, b = fcfg.nodes_of(pi[0]), fcfg.nodes_of(ii[0])
+                if a and b and _once_per_iteration(fcfg, head, a[0], b[0]):
+                    body_ok = True
+    gcfg = CFG(g.node)
+    cut = [s for s, e in M.find(g.node, 'self.buffer = self.buffer[self.pointer:]')]
+    zero = [s for s, e in M.find(g.node, 'self.pointer = 0')]
+    rebase = False
+    if len(cut) == 1 and zero:
+        cn = gcfg.nodes_of(cut[0])
+        zn = [n for z in zero for n in gcfg.nodes_of(z)]
+        # the prefix is dropped exactly when the pointer is zeroed: neither is reachable without the other
+        if cn and zn and all(gcfg.dominates(cn[0], z) for z in zn) \
+                and not gcfg.paths_to_normal_exit_avoiding([m for (m, lab) in gcfg.succ[cn[0]]], zn):
+            rebase = True
     if body_ok and rebase:
         rule.ok(fw.loc(), 'index and pointer advance together; update drops the consumed prefix and zeroes pointer')
     else:
@@ -302,12 +865,35 @@ def r_positions(ctx, repo):
                   'self.index and self.pointer no longer advance together (or update re-bases one without the other): marks drift '
                   'away from the text once the buffer has been refilled')
     um = R.methods.get('update_raw')
-    if 'self.stream_pointer += len(data)' in norm(um.node):
+    if um is None:
+        raise AnalysisError('Reader.update_raw has vanished')
+    uflow = Flow(um)
+    counted = False
+    for s, e in M.find(um.node, 'self.stream_pointer += len(__d)'):
+        og = origins(uflow, e['__d'], uflow.node_of(s))
+        if og and all(k == 'expr' and _is_stream_read(um, x) for k, x, n, i in og):
+            counted = True
+    if counted:
         rule.ok(um.loc(), 'stream_pointer counts every unit read')
     else:
         rule.fail('%s|stream_pointer' % um.qualname, um.module.rel, um.node.lineno, um.qualname, 'self.stream_pointer += len(data)',
                   'stream_pointer no longer counts what has been read from the stream')
     return rule
+
+
+# ======================================================================================================================
+# R-PYX-INPUT-CACHE
+# ======================================================================================================================
+
+def _guarded_by(cfg, node, f, want):
+    """every path to `node` passes an edge of a test on which `want(test expr)` says which label establishes the fact."""
+    edges = []
+    for t in cfg.nodes:
+        if t.kind == 'test' and t.ast is not None:
+            lab = want(t.ast)
+            if lab is not None:
+                edges.append((t, lab))
+    return bool(edges) and cfg.guarded(node, edges=edges)
 
 
 def r_pyx_input_cache(ctx, repo):
@@ -316,18 +902,107 @@ def r_pyx_input_cache(ctx, repo):
     f = repo.modules['_yaml'].functions.get('input_handler')
     if f is None:
         raise AnalysisError('input_handler has vanished')
-    t = norm(f.node)
+    if len(f.params) < 4:
+        raise AnalysisError('input_handler: expected (data, buffer, size, read)')
+    p_data, p_buf, p_size, p_read = f.params[:4]
+    flow = Flow(f)
+    cfg = flow.cfg
+    # the parser object: the local the opaque `data` pointer is cast into
+    objs = {t.id for n in walk_function(f.node) if isinstance(n, ast.Assign) and isinstance(n.value, ast.Name) and n.value.id == p_data
+            for t in n.targets if isinstance(t, ast.Name)}
+    if len(objs) != 1:
+        raise AnalysisError('input_handler: the parser object (cast of the first argument) was not found')
+    P = objs.pop()
+    env = name_env(p=P, buf=p_buf, size=p_size, read=p_read)
+    # the chunk: the local assigned from <parser>.stream.read(...)
+    reads = [(n, t.id) for n in walk_function(f.node) if isinstance(n, ast.Assign) and isinstance(n.value, ast.Call)
+             and matches('_N_p.stream.read', n.value.func, env) is not None for t in n.targets if isinstance(t, ast.Name)]
+    if len({v for n, v in reads}) != 1:
+        raise AnalysisError('input_handler: the stream.read() call was not found')
+    V = reads[0][1]
+    env.update(name_env(v=V))
+    LEN, POS = '%s.stream_cache_len' % P, '%s.stream_cache_pos' % P
+    remaining = {LEN: 1, POS: -1}
+
+    def is_remaining(e):
+        return _clean(linear_form(e)) == remaining
+
+    # 1. copy length limited to what the cache holds
+    limited = False
+    for n in walk_function(f.node):
+        if isinstance(n, ast.If):
+            iq = inequality(n.test)
+            if iq is not None and _clean(iq[0]) == {p_size: 1, LEN: -1, POS: 1}:
+                for s in n.body:
+                    if isinstance(s, ast.Assign) and len(s.targets) == 1 and isinstance(s.targets[0], ast.Name) \
+                            and s.targets[0].id == p_size and is_remaining(s.value):
+                        limited = True
+        elif isinstance(n, ast.Assign) and len(n.targets) == 1 and isinstance(n.targets[0], ast.Name) and n.targets[0].id == p_size \
+                and isinstance(n.value, ast.Call) and isinstance(n.value.func, ast.Name) and n.value.func.id == 'min' \
+                and len(n.value.args) == 2 and not n.value.keywords:
+            a, b = n.value.args
+            if (isinstance(a, ast.Name) and a.id == p_size and is_remaining(b)) or (isinstance(b, ast.Name) and b.id == p_size and is_remaining(a)):
+                limited = True
+    # 5. the cache is dropped only when exhausted
+    drops = [flow.node_of(s) for s, e in M.find(f.node, '_N_p.stream_cache = None', env)]
+
+    def exhausted(t):
+        for src, lab in (('_N_p.stream_cache_pos == _N_p.stream_cache_len', True), ('_N_p.stream_cache_len == _N_p.stream_cache_pos', True),
+                         ('_N_p.stream_cache_pos != _N_p.stream_cache_len', False), ('_N_p.stream_cache_len != _N_p.stream_cache_pos', False)):
+            if matches(src, t, env) is not None:
+                return lab
+        iq = inequality(t)
+        if iq is not None and _clean(iq[0]) == {POS: 1, LEN: -1} and not iq[1]:
+            return True             # pos >= len
+        if iq is not None and _clean(iq[0]) == {LEN: 1, POS: -1} and iq[1]:
+            return False            # len > pos
+        return None
+    drop_ok = bool(drops) and all(_guarded_by(cfg, d, f, exhausted) for d in drops)
+
+    # 6. str chunks re-encoded as UTF-8
+    def is_str(t):
+        for src, lab in (('PyUnicode_CheckExact(_N_v) != 0', True), ('PyUnicode_CheckExact(_N_v) == 0', False),
+                         ('PyUnicode_CheckExact(_N_v)', True), ('PyUnicode_Check(_N_v) != 0', True), ('PyUnicode_Check(_N_v)', True),
+                         ('isinstance(_N_v, str)', True)):
+            if matches(src, t, env) is not None:
+                return lab
+        return None
+    enc = [flow.node_of(s) for s, e in M.find(f.node, '_N_v = PyUnicode_AsUTF8String(_N_v)', env)]
+    # ... on every path from a str chunk to the cache
+    stores = [flow.node_of(s) for s, e in M.find(f.node, '_N_p.stream_cache = _N_v', env)]
+    str_edges = [(t, lab) for t in cfg.nodes if t.kind == 'test' and t.ast is not None for lab in [is_str(t.ast)] if lab is not None]
+    reenc = bool(enc) and bool(stores) and bool(str_edges) and all(_guarded_by(cfg, e, f, is_str) for e in enc)
+    if reenc:
+        # a chunk known to be str cannot reach the store without the conversion
+        after_str = cfg.reach([m for (t, lab) in str_edges for (m, l2) in cfg.succ[t] if l2 == lab], blocked=enc)
+        if any(s in after_str for s in stores):
+            reenc = False
+
+    # 7. the stream is read only when the cache is empty
+    def empty(t):
+        for src, lab in (('_N_p.stream_cache is None', True), ('_N_p.stream_cache is not None', False)):
+            if matches(src, t, env) is not None:
+                return lab
+        return None
+    read_ok = all(_guarded_by(cfg, flow.node_of(n), f, empty) for n, v in reads)
+    # 8. a fresh chunk is cached together with position 0 and its byte length
+    def together(x, s):
+        return cfg.dominates(x, s) or cfg.postdominates_normal(x, s)
+    pos0 = [flow.node_of(x) for x, e in M.find(f.node, '_N_p.stream_cache_pos = 0', env)]
+    ln = [flow.node_of(x) for src in ('_N_p.stream_cache_len = PyBytes_GET_SIZE(_N_v)', '_N_p.stream_cache_len = PyBytes_GET_SIZE(_N_p.stream_cache)',
+                                      '_N_p.stream_cache_len = PyBytes_Size(_N_v)', '_N_p.stream_cache_len = len(_N_v)')
+          for x, e in M.find(f.node, src, env)]
+    fresh = bool(stores) and all(any(together(n, s) for n in pos0) and any(together(n, s) for n in ln) for s in stores)
     facts = [
-        ('parser.stream_cache_len - parser.stream_cache_pos < size' in t and
-         'size = parser.stream_cache_len - parser.stream_cache_pos' in t, 'copy length limited to what the cache holds'),
-        ('memcpy(buffer, PyBytes_AS_STRING(parser.stream_cache) + parser.stream_cache_pos, size)' in t, 'copies from the current cache position'),
-        ('read[0] = size' in t, 'reports the number of bytes copied'),
-        ('parser.stream_cache_pos += size' in t, 'advances by the amount copied'),
-        ('if parser.stream_cache_pos == parser.stream_cache_len:\n    parser.stream_cache = None' in
-         '\n'.join('if %s:\n    %s' % (norm(n.test), norm(n.body[0])) for n in walk_function(f.node) if isinstance(n, ast.If)),
-         'drops the cache only when exhausted'),
-        ('value = PyUnicode_AsUTF8String(value)' in t and 'PyUnicode_CheckExact(value) != 0' in t, 'str chunks re-encoded as UTF-8'),
-        ('if parser.stream_cache is None' in t, 'reads the stream only when the cache is empty'),
+        (limited, 'copy length limited to what the cache holds'),
+        (M.has(f.node, 'memcpy(_N_buf, PyBytes_AS_STRING(_N_p.stream_cache) + _N_p.stream_cache_pos, _N_size)', env),
+         'copies from the current cache position'),
+        (M.has(f.node, '_N_read[0] = _N_size', env), 'reports the number of bytes copied'),
+        (M.has(f.node, '_N_p.stream_cache_pos += _N_size', env), 'advances by the amount copied'),
+        (drop_ok, 'drops the cache only when exhausted'),
+        (reenc, 'str chunks re-encoded as UTF-8'),
+        (read_ok, 'reads the stream only when the cache is empty'),
+        (fresh, 'caches a fresh chunk with position 0 and its byte length'),
     ]
     for ok, what in facts:
         if ok:
